@@ -419,11 +419,16 @@ impl FunctionName {
   pub const VEC_EQ: FunctionName =
     FunctionName { type_name: TypeNameId::VEC, fn_name: PStr::STR_EQ };
 
-  /// Helper that casts a `(ref eq)` to `(ref i31)` and returns its i32 value.
+  /// Helper that turns a boxed `(ref eq)` Vec element back into its i32 value
+  /// (an i31, or a heap box for values that do not fit in 31 bits).
   /// Used by the WASM lowering to unbox the result of `Vec.get`/`Vec.pop`
   /// when the source-level element type is `int`. Defined in libsam.wat.
   pub const UNWRAP_I31: FunctionName =
     FunctionName { type_name: TypeNameId::EMPTY, fn_name: PStr::UNWRAP_I31 };
+  /// Inverse of `UNWRAP_I31`: boxes an i32 Vec element into a `(ref eq)`
+  /// without losing the bits that an i31 cannot hold. Defined in libsam.wat.
+  pub const BOX_INT: FunctionName =
+    FunctionName { type_name: TypeNameId::EMPTY, fn_name: PStr::BOX_INT };
 
   pub const BUILTIN_FREE: FunctionName =
     FunctionName { type_name: TypeNameId::EMPTY, fn_name: PStr::FREE_FN };
